@@ -407,6 +407,13 @@ func genRdata(r *Rng, pl *specPlan, nameMode int, plainStr bool) (rd []byte, fie
 				}
 			}
 			b := genBlob(r, max)
+			if r.Chance(25) {
+				// the size lives in an 8- or 16-bit field: lengths around half and at the top of its range
+				b = r.Bytes([]int{127, 128, 129, 200, 254, 255, max}[r.Intn(7)])
+				if len(b) > max {
+					b = b[:max]
+				}
+			}
 			if s.Codec == "unpackStringBase32" && len(b) == 0 {
 				b = r.Bytes(20)
 			}
